@@ -282,6 +282,10 @@ func (m *Mast) flush(ctx context.Context) (string, error) {
 	if err != nil {
 		return "", fmt.Errorf("load root: %w", err)
 	}
+	if node.isEmpty() {
+		// a tree that never had an entry is the same version as one that was emptied
+		return "", nil
+	}
 	storeQ := make(chan func() error)
 	n := 40
 	gate := make(chan interface{}, n)
